@@ -406,6 +406,38 @@ def check_tree_public(t, st, fam):
                 return
 
 
+SHARED_SRC = 'TABLE = {1: Data(1), 2: Data(2), 4: Int(2)}\n' + mk.class_src('K', [
+    'kind = Int(1)', 'src = Ref(kind.chooses(TABLE), default=b"")', 'dst = Ref(kind.chooses(TABLE), default=b"")', 'z = Int(1)']) + \
+    mk.class_src('K2', ['h = Int(1)', 'kind = Int(1)', 'addr = Ref(kind.chooses(TABLE), default=b"")'])
+
+
+def check_shared_table(st):
+    """x.chooses(TABLE) evaluates to TABLE[x] for EVERY expression built over the same table of constant Field
+    objects (two Ref fields of one class, a second class), in any order of first use"""
+    cases = [(1, b'A', b'B'), (2, b'AB', b'CD'), (4, 0x4142, 0x4344), (1, b'C', b'D'), (3, None, None)]
+    for order in ((0, 1, 2, 3, 4), (2, 1, 0, 4, 3), (4, 3, 2, 1, 0)):
+        with mk.World() as w:
+            m = w.module(SHARED_SRC)
+            st.inc('public_classes')
+            for ci in order:
+                kind, a, b = cases[ci]
+                enc = lambda v: v if isinstance(v, bytes) else (bytes([v >> 8, v & 0xff]) if v is not None else b'')
+                raw = bytes([kind]) + enc(a) + enc(b) + b'\x09'
+                raw2 = b'\x07' + bytes([kind]) + enc(a)
+                st.inc('evaluations')
+                for cls, r, want in ((m.K, raw, (a, b, 9)), (m.K2, raw2, (a,))):
+                    try:
+                        p = cls.unpack(r)
+                        got = (p.src, p.dst, p.z) if cls is m.K else (p.addr,)
+                    except Exception as e:
+                        got = type(e).__name__
+                    exp = want if kind != 3 else 'PacketError'
+                    if got != exp:
+                        st.violate('shared option table', '%s.unpack(%r) -> %r, expected %r (first uses in order %r) | %s' % (
+                            cls.__name__, r, got, exp, order, SHARED_SRC.replace('\n', '; ')), {'shared_table': list(order)}, mk.HEADER + SHARED_SRC)
+                        return
+
+
 def families(tier):
     fams = [('int-d1', depth1_int()), ('seq', seq_family()), ('nary', nary_family())]
     return fams
@@ -458,6 +490,8 @@ def _shard(shard, nshards, payload):
         if i % nshards != shard:
             continue
         check_tree_public(t, st, fam)
+    if shard == 0:
+        check_shared_table(st)
     return st
 
 
@@ -489,6 +523,9 @@ def run(tier):
 def replay(case):
     from bisturi.deferred import compile_expr_into_callable
     st = Stats()
+    if 'shared_table' in case:
+        check_shared_table(st)
+        return st.violations
     t = case['tree']
     if case.get('channel') == 'public':
         check_tree_public(t, st, 'replay')
